@@ -327,6 +327,28 @@ def entry_points(ctx, P):
             if (rej or inc) and rc not in (0,):
                 bad = (v, "a rejection or an incomplete sequence at the end does not return false")
         ctx.ob("C18.4 R-ORDER", f, "reject-propagates", bad is None, bad[1] if bad else "rejections return false", witness=bad[0].witness() if bad else None)
+        # siblings agree on what a text that ends inside a character leaves behind: the checker is initialised once by its user and
+        # re-armed by the validator itself after every rejection (is_byte_valid does it for a bad byte) - so on the path that
+        # rejects a complete text for ending mid-character the entry point re-initialises the checker; otherwise the NEXT text
+        # on that checker is judged from the middle of the old one
+        badr = None
+        nr = 0
+        for v in views:
+            inc = v.has_atom(lambda a, p: a[0] == "cmp" and Q.is_field_load(a[2], "struct.cjet_utf8_checker", "start_byte") is not None
+                             and a[3] == ("const", finish) and not Q._poleq(a, p)) and \
+                v.has_atom(lambda a, p: a[0] == "truth" and a[1][0] == "param" and a[1][1] == 3 and p)
+            if not inc or v.ret_const() != 0:
+                continue
+            nr += 1
+            rearmed = any(P.srcname_of(i.callee) == "cjet_init_checker" for _, i in v.calls() if i.callee) or \
+                any(i.op == "store" and P.term(f, i.a[1])[0] == "field" and P.term(f, i.a[1])[3] == "start_byte" and
+                    P.const_int(i.a[0]) is not None and (P.const_int(i.a[0]) & 0xFF) == finish for _, i in v.insts())
+            if not rearmed:
+                badr = v
+        ctx.ob("C18.4 R-SIB", f, "truncated-text-re-arms-the-checker", badr is None and nr >= 1,
+               "%s() rejects a complete text that ends inside a character and leaves the checker in the middle of that character: the next "
+               "text validated with the same checker is judged as its continuation (a plain \"A\" is rejected); the sibling entry points "
+               "re-initialise the checker on this path" % f.srcname, witness=badr.witness() if badr else None)
         # byte i for i = 0..n-1
         okidx = False
         for c in f.calls("is_byte_valid"):
